@@ -73,7 +73,18 @@ def gen_case(rng, force_twin=False):
                     for comp in r["config"]["codenames"][cn]:
                         r["config"]["codenames"][cn][comp]["arches"] = ["amd64", "i386"]
         scn.nthreads = max(scn.nthreads, 2)
-    return scn, {"seed": rng.getrandbits(32), "twin": twin}
+    shared = (not force_twin) and rng.random() < 0.2
+    if shared:
+        # two suites of one repository list the SAME packages (same pool paths); errors are ignored below one
+        # suite's dists directory only; one shared pool file is persistently missing (see run_case)
+        import json as _json
+        r = scn.repos[0]
+        first = next(iter(r["version"]["codenames"]))
+        other = "testing" if first != "testing" else "stable"
+        r["version"]["codenames"][other] = _json.loads(_json.dumps(r["version"]["codenames"][first]))
+        r["config"]["codenames"][other] = _json.loads(_json.dumps(r["config"]["codenames"][first]))
+        r["config"]["ignore_errors"] = [f"dists/{other}"]
+    return scn, {"seed": rng.getrandbits(32), "twin": twin, "shared": shared}
 
 
 def run_case(rep, scn, case, sb, tag, n_orders, n_seeds):
@@ -82,7 +93,13 @@ def run_case(rep, scn, case, sb, tag, n_orders, n_seeds):
     plan = R.gen_fault_plan(rng, scn, files, density=rng.choice([0, 1, 2, 3]))
     found = False
     path_fault = None
-    if rng.random() < 0.4:
+    if case.get("shared"):
+        from .c02 import required_pool
+        r0 = scn.repos[0]
+        pool = sorted(p for p in required_pool(r0) if p in files[r0["url"]])
+        if pool:
+            plan.setdefault(r0["url"], {})[rng.choice(pool)] = {"first": [], "rest": "missing"}
+    if rng.random() < 0.4 and not case.get("shared"):
         # a schedule-independent local I/O error on one pool file, other pool directories under ignore_errors
         for r in scn.repos:
             pool = sorted(p for p in files[r["url"]] if p.startswith("pool/"))
